@@ -26,7 +26,6 @@ ASSUME StdCipherIsWordCipher ==      \* whole dwords: same as MpqCrypto's block 
       /\ SubSeq(StdCryptBytes(bs, kk, StdEncWords), 9, 11) = <<9,10,11>>
       /\ StdCryptBytes(StdCryptBytes(bs, kk, StdEncWords), kk, StdDecWords) = bs
       /\ UnitDecrypt(UnitEncrypt(bs, kk, LibW), kk, LibR) = bs
-      /\ UnitEncrypt(bs, kk, LibW) = EncryptBytes(bs, kk)      \* today MpqCrypto's byte wrapper is the `tail` rule
       /\ UnitEncrypt(bs, kk, LibW) # UnitEncrypt(bs, kk, Std)
 
 \* model size: "cov" (tiny, run under -coverage for the vacuity guard), "quick", "thorough"
